@@ -14,8 +14,8 @@ RULE = ("per_class: every one of the 26 operation classes x generated field valu
         "and after a registry change), tag and annotation fields, relation type kept and reference re-pointed to "
         "lookup[ref] (dropped when absent), acquisition registry re-targeted through the lookup, no shared link object. "
         "programs: Hypothesis build programs over all kinds (nesting <= 2, shared links, repetition counts) copied "
-        "explicitly (circuit_structure.copy(), taken from the circuit as built, after a listing, after flatten() or after "
-        "apply_modifiers()) and implicitly (add(sub)); oracle: "
+        "explicitly (circuit_structure.copy(), taken from the circuit as built, after a listing, after flatten(), after "
+        "apply_modifiers() or after both; compared again after the registry durations both read were re-assigned) and implicitly (add(sub)); oracle: "
         "listing signatures equal position by position, schedule relative to own start equal, every internal relation "
         "of the copy has the same type and points at the copy listed at the index of the original's reference, no "
         "operation object shared; up to three direct sub-circuits are then copied stand-alone (after the whole-circuit "
@@ -145,7 +145,9 @@ def strat_programs():
                    p_share=15, max_total_leaves=40)
     return st.fixed_dictionaries({
         "program": P.program_strategy(cfg),
-        "pre": st.sampled_from(["none", "list", "flatten", "unroll", "list"]),
+        "pre": st.sampled_from(["none", "list", "flatten", "unroll", "list", "unroll_flatten"]),
+        # registry durations are re-assigned after the copy was taken (original and copy read the same registry)
+        "redur": st.none() | st.fixed_dictionaries({"k0": st.sampled_from(P.DYADIC[1:]), "k1": st.sampled_from(P.DYADIC[1:])}),
         "mutate": st.sampled_from(["add", "unroll", "flatten", "none"]),
         "side": st.sampled_from(["copy", "original"]),
     })
@@ -231,7 +233,7 @@ def body_programs(case, ctx):
     nondefault = any(k in NONDEFAULT_FIELD_KINDS for k in st["kinds"])
     ctx.case(case, nontrivial=nonadjacent and nondefault, classes=[
         f"nonadjacent_rel={nonadjacent}", f"nesting={st['nesting']}", f"pre={case['pre']}",
-        f"mutate={case['mutate']}", f"side={case['side']}", f"reps={st['n_reps_gt1'] > 0}", f"shared={st['shared_link']}"])
+        f"mutate={case['mutate']}", f"redur={bool(case.get('redur'))}", f"side={case['side']}", f"reps={st['n_reps_gt1'] > 0}", f"shared={st['shared_link']}"])
     facts = {"kinds": st["kinds"], "pre": case["pre"]}
     with P.global_override(g):
         b = None
@@ -247,12 +249,12 @@ def body_programs(case, ctx):
         for i, it in enumerate(program["top"]["items"]):
             if P.is_sub(it):
                 compare_copy(ctx, b.passed[(i,)].circuit_structure, b.handles[(i,)], f"add(sub) item {i}", facts)
-        if case["pre"] in ("flatten", "unroll"):
+        if case["pre"] in ("flatten", "unroll", "unroll_flatten"):
             with ctx.lib(case["pre"]):
-                if case["pre"] == "flatten":
-                    b.circuit.flatten()
-                else:
+                if case["pre"] != "flatten":
                     b.circuit.apply_modifiers()
+                if case["pre"] != "unroll":
+                    b.circuit.flatten()
         # explicit copy
         orig = b.circuit.circuit_structure
         cp = None
@@ -261,6 +263,13 @@ def body_programs(case, ctx):
         if cp is None:
             return
         compare_copy(ctx, orig, cp, "circuit_structure.copy()", facts)
+        # the copy follows the same schedule under every duration assignment, not only the one it was taken under
+        dreg = program.get("dreg", {})
+        if case.get("redur") and dreg:
+            with ctx.lib("change registry durations"):
+                for k in sorted(dreg):
+                    b.duration_registry.set_registry_at(k, case["redur"].get(k, dreg[k]))
+            compare_copy(ctx, orig, cp, "circuit_structure.copy() after the registry durations were re-assigned", dict(facts, redur=True))
         # stand-alone copies of (up to three) direct sub-circuits, taken after the whole circuit was copied: each is a
         # circuit of its own - same content, and no relation into the original or into the earlier copy
         subs, alone = [], []
